@@ -5,6 +5,7 @@ import (
 	"errors"
 	"fmt"
 	"strconv"
+	"strings"
 	"time"
 
 	"go.temporal.io/server/api/adminservice/v1"
@@ -49,6 +50,7 @@ type PassConfig struct {
 	Budget     int
 	OpenFail   bool
 	StallClose bool
+	GrowTheme  bool // C20: every hostile stream of the run carries a large representable shard id (concurrent growth of the bookkeeping)
 }
 
 type passConn struct {
@@ -132,6 +134,10 @@ func NewPassWorld(s *simrt.Sim, prof PassProfile) *PassWorld {
 	s.SetPKeep(c.PKeep)
 	if prof.BadMetadata {
 		w.badLeft = 1 + s.Draw(4)
+		if s.Draw(3) == 0 {
+			w.cfg.GrowTheme = true
+			w.badLeft = 2 + s.Draw(3)
+		}
 	}
 	w.lifetime, w.cancelAll = context.WithCancel(context.Background())
 	scc := config.ShardCountConfig{}
@@ -206,6 +212,74 @@ var badShardValues = []string{
 	"-2147483648", "2147483648", "4294967297", "99999999999999", "abc", "", "1e3", " 7", "0x10",
 }
 
+var growShardValues = []string{"1024", "1025", "1100", "1500", "2047", "2048", "3000", "4096", "10000", "16000", "65535", "100000", "500000", "1048575"}
+
+// observerIdx is the index the proxy derives from a connection's metadata for its
+// active-stream bookkeeping (Temporal's DecodeClusterShardMD: Atoi, then int32 conversion).
+func (pc *passConn) observerIdx() (int32, bool) {
+	n, err := strconv.Atoi(pc.md[history.MetadataKeyServerShardID])
+	if err != nil {
+		return 0, false
+	}
+	return int32(n), true
+}
+
+// checkBookkeeping (C20, "bookkeeping for one stream never blocks or corrupts bookkeeping for
+// others"): reads the active-stream counters through the observer's own printer, from a task
+// of its own (a lock left held shows as the probe not finishing), and compares them with the
+// streams the harness knows: no counter for a shard id that no running handler carries; every
+// well-formed stream that is being served is counted; nothing is counted once every handler
+// has returned.
+func (w *PassWorld) checkBookkeeping(final bool) {
+	done := false
+	var out string
+	w.s.Spawn("probe:observer", func() { out = w.observer.PrintActiveStreams(); done = true })
+	w.s.ExtendBudget(50000, 5*time.Second)
+	w.s.Run(untilW{w, func() bool { return done || w.s.Crashed() != nil }})
+	if w.s.Crashed() != nil {
+		return
+	}
+	if !done {
+		w.violate("C20", "bookkeeping-blocked", "reading the active-stream counters did not finish within 5 virtual seconds of fair execution; live tasks: %v", w.s.LiveTasks())
+		return
+	}
+	printed := map[int32]bool{}
+	for _, f := range strings.Split(strings.Trim(out, "[]"), ",") {
+		if f == "" {
+			continue
+		}
+		n, err := strconv.Atoi(f)
+		if err != nil {
+			w.violate("C20", "bookkeeping-corrupt", "unreadable active-stream report %q", out)
+			return
+		}
+		printed[int32(n)] = true
+	}
+	may, must := map[int32]bool{}, map[int32]bool{}
+	for _, pc := range w.conns {
+		idx, ok := pc.observerIdx()
+		if !ok || pc.handlerDone {
+			continue
+		}
+		may[idx] = true
+		if !pc.bad && pc.served {
+			must[idx] = true
+		}
+	}
+	for idx := range printed {
+		if !may[idx] {
+			w.violate("C20", "bookkeeping-corrupt", "active-stream report %s counts shard id %d, which no running stream handler carries (final=%v)", out, idx, final)
+			return
+		}
+	}
+	for idx := range must {
+		if !printed[idx] {
+			w.violate("C20", "bookkeeping-corrupt", "active-stream report %s does not count shard id %d of a well-formed stream that is being served", out, idx)
+			return
+		}
+	}
+}
+
 func (w *PassWorld) open(bad bool) *passConn {
 	id := len(w.conns) + 1
 	pc := &passConn{id: id, bad: bad, name: fmt.Sprintf("c%d", id), nextHigh: 100}
@@ -222,13 +296,22 @@ func (w *PassWorld) open(bad bool) *passConn {
 		for i := 0; i < n; i++ {
 			k := keys[w.s.Draw(len(keys))]
 			var v string
-			switch w.s.Draw(4) {
+			kind := w.s.Draw(5)
+			if w.cfg.GrowTheme {
+				kind = 4
+			}
+			switch kind {
 			case 0, 1:
 				v = badShardValues[w.s.Draw(len(badShardValues))]
 			case 2:
 				v = strconv.Itoa(238609294 + w.s.Draw(1<<30))
-			default:
+			case 3:
 				v = strconv.Itoa(-1 - w.s.Draw(1<<30))
+			default:
+				// a large but representable shard id: concurrent streams make the per-shard
+				// bookkeeping grow to different sizes at the same time
+				k = history.MetadataKeyServerShardID
+				v = growShardValues[w.s.Draw(len(growShardValues))]
 			}
 			if v == "" {
 				delete(md, k)
@@ -568,11 +651,17 @@ func RunPass(s *simrt.Sim, prof PassProfile) *Result {
 			}
 		}
 	}
+	if prof.BadMetadata && s.Crashed() == nil {
+		w.checkBookkeeping(false)
+	}
 	// close
 	w.phase = 2
 	s.ExtendBudget(200000, 20*time.Second)
 	s.Run(w)
 	w.judgeTermination(true)
+	if prof.BadMetadata && s.Crashed() == nil {
+		w.checkBookkeeping(true)
+	}
 	if s.Crashed() == nil {
 		w.cancelAll()
 		w.baseLive = 0
